@@ -23,6 +23,11 @@ def main():
         return recheck(sys.argv[2], sys.argv[3:])
     if sys.argv[1] == "--harmless":
         return harmless(sys.argv[2], sys.argv[3], sys.argv[4:])
+    confirm_only = False
+    if sys.argv[1] == "--confirm":
+        # confirmation in a scratch worktree only (parallelisable); the checks are run later by --recheck
+        confirm_only = True
+        sys.argv.pop(1)
     seed, name, props = sys.argv[1], sys.argv[2], sys.argv[3:]
     patch = os.path.join(seed, "patch.diff")
     demo = os.path.join(seed, "demo.rs")
@@ -68,7 +73,7 @@ def main():
     meta["confirmed"] = bool(confirmed)
     # run our checks against it
     results = {}
-    if confirmed and props:
+    if confirmed and props and not confirm_only:
         rc, o = sh(["git", "-C", "/repo", "apply", os.path.abspath(patch)])
         assert rc == 0, o
         try:
@@ -85,7 +90,7 @@ def main():
         finally:
             sh(["git", "-C", "/repo", "checkout", "--", "."])
             # evidence files must describe the unchanged tree again
-            for p in props:
+            for p in ([] if os.environ.get("SEED_EVAL_NO_REFRESH") else props):
                 sh([sys.executable, os.path.join(ROOT, "tools", "check.py"), "--property", p, "--tier", "quick"], cwd=ROOT)
     meta["check_results"] = results
     meta["caught_by"] = [p for p, r in results.items() if r["exit"] != 0]
@@ -118,7 +123,7 @@ def run_checks(patch, props):
             results[p] = {"exit": rc, "violation_line": viol[:1], "verdict": verdict[:400], "wall_s": round(time.time() - t0, 1)}
     finally:
         sh(["git", "-C", "/repo", "checkout", "--", "."])
-        for p in props:
+        for p in ([] if os.environ.get("SEED_EVAL_NO_REFRESH") else props):
             sh([sys.executable, os.path.join(ROOT, "tools", "check.py"), "--property", p, "--tier", "quick"], cwd=ROOT)
     return results
 
